@@ -149,6 +149,59 @@ fn with<R>(f: impl FnOnce(&mut Rec) -> R) -> Option<R> {
     None
 }
 
+thread_local! {
+    /// every fallible call on a tracked file issued by THIS thread fails with this errno
+    static TL_FAIL_ALL: Cell<Option<i32>> = const { Cell::new(None) };
+    static TL_FAILED: Cell<usize> = const { Cell::new(0) };
+}
+/// From now on every create / write / fsync / unlink on a tracked file issued by the calling
+/// thread fails with `errno` (None: back to normal). Returns how many calls were failed so far.
+pub fn fail_all_on_this_thread(errno: Option<i32>) -> usize {
+    TL_FAIL_ALL.with(|c| c.set(errno));
+    TL_FAILED.with(|c| c.get())
+}
+thread_local! {
+    /// (n, seen): fail the n-th read-path call (open of an existing store file for reading, mmap of
+    /// a store file) issued by this thread; n = 0 only counts
+    static TL_READ_FAULT: Cell<Option<(usize, usize)>> = const { Cell::new(None) };
+    static TL_READ_FIRED: Cell<bool> = const { Cell::new(false) };
+}
+pub fn arm_read_fault(n: usize) {
+    TL_READ_FAULT.with(|c| c.set(Some((n, 0))));
+    TL_READ_FIRED.with(|c| c.set(false));
+}
+/// Disarm; returns (read-path calls seen since arming, whether the fault was injected).
+pub fn disarm_read_fault() -> (usize, bool) {
+    let seen = TL_READ_FAULT.with(|c| c.replace(None)).map(|x| x.1).unwrap_or(0);
+    (seen, TL_READ_FIRED.with(|c| c.get()))
+}
+fn read_fault_due() -> bool {
+    TL_READ_FAULT
+        .try_with(|c| match c.get() {
+            Some((n, seen)) => {
+                c.set(Some((n, seen + 1)));
+                if n == seen + 1 {
+                    let _ = TL_READ_FIRED.try_with(|f| f.set(true));
+                    true
+                } else {
+                    false
+                }
+            }
+            None => false,
+        })
+        .unwrap_or(false)
+}
+
+/// The fault (if any) to inject into the fallible call that is about to be made.
+fn due_now() -> Option<FaultKind> {
+    if let Some(e) = TL_FAIL_ALL.try_with(|c| c.get()).ok().flatten() {
+        let _ = with(|r| r.nmut += 1);
+        let _ = TL_FAILED.try_with(|c| c.set(c.get() + 1));
+        return Some(FaultKind::Errno(e));
+    }
+    with(|r| r.due()).flatten()
+}
+
 /// Start recording on this thread for files below `root`.
 pub fn rec_start(root: &str) {
     REC.with(|r| {
@@ -275,10 +328,14 @@ unsafe fn do_open(path: *const c_char, flags: c_int, mode: libc::mode_t, label: 
         with(|r| r.push(Call::Forbidden(format!("open-O_TRUNC {} flags={:#o}", rel, flags))));
     }
     if creating && !existed {
-        if let Some(FaultKind::Errno(e)) = with(|r| r.due()).flatten() {
+        if let Some(FaultKind::Errno(e)) = due_now() {
             seterr(e);
             return -1;
         }
+    }
+    if existed && !creating && acc == libc::O_RDONLY && rel.contains(".bitcask.") && read_fault_due() {
+        seterr(libc::EMFILE);
+        return -1;
     }
     let fd = libc::syscall(libc::SYS_openat, libc::AT_FDCWD, path, flags, mode as libc::c_uint) as c_int;
     if fd >= 0 {
@@ -320,7 +377,7 @@ pub unsafe extern "C" fn write(fd: c_int, buf: *const c_void, n: usize) -> isize
         return libc::syscall(libc::SYS_write, fd, buf, n) as isize;
     };
     let mut n2 = n;
-    match with(|r| r.due()).flatten() {
+    match due_now() {
         Some(FaultKind::Errno(e)) => {
             seterr(e);
             return -1;
@@ -348,7 +405,7 @@ pub unsafe extern "C" fn writev(fd: c_int, iov: *const libc::iovec, cnt: c_int) 
     let Some(p) = tracked_fd(fd) else {
         return libc::syscall(libc::SYS_writev, fd, iov, cnt) as isize;
     };
-    if let Some(FaultKind::Errno(e)) = with(|r| r.due()).flatten() {
+    if let Some(FaultKind::Errno(e)) = due_now() {
         seterr(e);
         return -1;
     }
@@ -390,7 +447,7 @@ unsafe fn do_sync(fd: c_int, nr: libc::c_long) -> c_int {
         crate::sched::park_io("fsync");
     }
     if let Some(p) = tracked_fd(fd) {
-        if let Some(FaultKind::Errno(e)) = with(|r| r.due()).flatten() {
+        if let Some(FaultKind::Errno(e)) = due_now() {
             seterr(e);
             return -1;
         }
@@ -427,7 +484,7 @@ pub unsafe extern "C" fn unlink(path: *const c_char) -> c_int {
             // not there: the call fails with ENOENT by itself and is not a mutating call
             return libc::syscall(libc::SYS_unlink, path) as c_int;
         }
-        if let Some(FaultKind::Errno(e)) = with(|r| r.due()).flatten() {
+        if let Some(FaultKind::Errno(e)) = due_now() {
             seterr(e);
             return -1;
         }
@@ -485,6 +542,10 @@ unsafe fn do_mmap(a: *mut c_void, l: usize, p: c_int, f: c_int, fd: c_int, o: i6
                 with(|r| r.push(Call::Forbidden(format!("mmap-writable-shared {}", path))));
             }
         }
+    }
+    if fd >= 0 && TL_READ_FAULT.try_with(|c| c.get().is_some()).unwrap_or(false) && tracked_fd(fd).is_some() && read_fault_due() {
+        seterr(libc::ENOMEM);
+        return libc::MAP_FAILED;
     }
     libc::syscall(libc::SYS_mmap, a, l, p, f, fd, o) as *mut c_void
 }
